@@ -92,8 +92,8 @@ SpecialSound == \A c2 \in Fld \ {c} :
 WClasses == {[j \in 1..N |-> "rand"]} \cup {[j \in 1..N |-> IF j = k THEN cl ELSE "rand"] : k \in 1..N, cl \in {"0", "1", "r-1"}} \cup {[j \in 1..N |-> "0"]}
 (* "forge_skip_row": a transcript made for the statement without one of its rows (whose image is NOT the image of the witness - the full statement is false), hashed as the
    full statement, with the response padded to the expected size.  Extract recomputes one commitment per row of M, so such a transcript can only be accepted by a verifier
-   that leaves a row out; protocols whose statement carries an index set (vcom_eq) are exposed to this. *)
-Targets == {"none", "context", "challenge", "challenge_msb", "response_surplus"} \cup (IF Proto = "vcom_eq" THEN {"forge_skip_row"} ELSE {}) \cup {Publics(Proto)[i] : i \in 1..Len(Publics(Proto))} \cup {"response_" \o ToString(j - 1) : j \in 1..N}
+   that leaves a row out; protocols whose statement carries an index set (vcom_eq) or a list of sub-statements (the replicated composition) are exposed to this. *)
+Targets == {"none", "context", "challenge", "challenge_msb", "response_surplus"} \cup (IF Proto \in {"vcom_eq", "replicate_dlog"} THEN {"forge_skip_row"} ELSE {}) \cup {Publics(Proto)[i] : i \in 1..Len(Publics(Proto))} \cup {"response_" \o ToString(j - 1) : j \in 1..N}
 Rows == {[kind |-> "sigma", protocol |-> Proto, wclass |-> wc, perturb |-> t] : wc \in WClasses, t \in Targets}
 ASSUME PrintT(<<"ROWS", ToJson(Rows)>>)
 =============================================================================
